@@ -142,3 +142,230 @@ def mask_width(m):
 
 def bits_for(maxval):
     return max(1, int(maxval).bit_length())
+
+
+# ---- byte composition: abstract evaluation over "which buffer byte sits at which bit offset" -----------------------------
+# Values: {'b': {byte index: shift}}      an OR of (buf[k] & 0xFF) << s with pairwise disjoint bit ranges
+#         ('raw', k)                      the unmasked (possibly sign-extended) byte buf[k]
+#         ('int', c)                      an integer constant
+#         ('ptr', off)                    a pointer into the buffer
+# None = outside the domain.  Counting loops with constant bounds are unrolled (at most 64 trips); helpers
+# with a body are evaluated with their arguments bound (depth <= 3).
+
+def _bv(d):
+    return {'b': d}
+
+
+def byte_value(prog, f, e, bufname, env=None, depth=0):
+    from rules.common import counting_for, for_init_const
+    env = env if env is not None else {}
+
+    def is_b(v):
+        return isinstance(v, dict)
+
+    def disjoint(a, b):
+        ra = [(s, s + 8) for s in a.values()]
+        rb = [(s, s + 8) for s in b.values()]
+        return not set(a) & set(b) and all(x[1] <= y[0] or y[1] <= x[0] for x in ra for y in rb)
+
+    def is_bad(v):
+        return isinstance(v, tuple) and v[0] == 'bad'
+
+    def ev(n):
+        # explicit conversion to an unsigned 8-bit type masks a raw byte
+        while n is not None and n['k'] in ('ImplicitCastExpr', 'CStyleCastExpr', 'CXXFunctionalCastExpr', 'CXXStaticCastExpr',
+                                           'ParenExpr', 'ExprWithCleanups', 'MaterializeTemporaryExpr') and kids(n):
+            t = (n.get('ct') or n.get('t') or '').replace('const ', '')
+            if n['k'] != 'ParenExpr' and t in ('unsigned char', 'uint8_t', 'std::uint8_t', '__uint8_t'):
+                v = ev(kids(n)[-1])
+                if v is not None and not is_b(v) and v[0] == 'raw':
+                    return _bv({v[1]: 0})
+                return v
+            n = kids(n)[-1]
+        n = _strip(n)
+        if n is None:
+            return None
+        c = const_of(n)
+        if c is not None:
+            return ('int', c)
+        k = n['k']
+        if k == 'DeclRefExpr':
+            r = n.get('ref', {})
+            if r.get('k') in ('Local', 'Parm'):
+                if r['id'] in env:
+                    return env[r['id']]
+                if r.get('n') == bufname:
+                    return ('ptr', 0)
+            return None
+        if k == 'ArraySubscriptExpr':
+            b, i = ev(kids(n)[0]), ev(kids(n)[1])
+            if b and i and not is_b(b) and not is_b(i) and b[0] == 'ptr' and i[0] == 'int':
+                return ('raw', b[1] + i[1])
+            return None
+        if k == 'UnaryOperator' and n.get('op') == '*':
+            b = ev(kids(n)[0])
+            return ('raw', b[1]) if b and not is_b(b) and b[0] == 'ptr' else None
+        if k == 'UnaryOperator' and n.get('op') == '&':
+            b = ev(kids(n)[0])
+            return ('ptr', b[1]) if b and not is_b(b) and b[0] == 'raw' else None
+        if k == 'BinaryOperator':
+            op = n.get('op')
+            a, b = ev(kids(n)[0]), ev(kids(n)[1])
+            if is_bad(a) or is_bad(b):
+                return a if is_bad(a) else b
+            if a is None or b is None:
+                return None
+            if op == '<<' and not is_b(a) and a[0] == 'raw' and not is_b(b) and b[0] == 'int':
+                t = (n.get('ct') or n.get('t') or '').replace('const ', '')
+                w = {'unsigned long': 64, 'uint64_t': 64, 'unsigned long long': 64, 'unsigned int': 32, 'uint32_t': 32}.get(t)
+                if w is not None and b[1] == w - 8:
+                    return _bv({a[1]: b[1]})        # the sign extension is shifted out of the value
+            if op in ('|', '+', '^', '<<'):
+                for x in (a, b):
+                    if not is_b(x) and x[0] == 'raw':
+                        return ('bad', 'byte %d enters the value unmasked (a plain char sign-extends)' % x[1])
+            ai, bi = (not is_b(a) and a[0] == 'int'), (not is_b(b) and b[0] == 'int')
+            if ai and bi:
+                try:
+                    return ('int', {'+': a[1] + b[1], '-': a[1] - b[1], '*': a[1] * b[1], '<<': a[1] << b[1],
+                                    '|': a[1] | b[1], '&': a[1] & b[1]}[op])
+                except (KeyError, ValueError):
+                    return None
+            if op in ('+', '-') and not is_b(a) and a[0] == 'ptr' and bi:
+                return ('ptr', a[1] + (b[1] if op == '+' else -b[1]))
+            if op == '+' and not is_b(b) and b[0] == 'ptr' and ai:
+                return ('ptr', b[1] + a[1])
+            if op == '&':
+                if bi:
+                    a, b = b, a
+                    ai, bi = bi, ai
+                if ai and a[1] == 0xFF and not is_b(b) and b[0] == 'raw':
+                    return _bv({b[1]: 0})
+                if ai and a[1] == 0xFF and is_b(b) and list(b['b'].values()) == [0]:
+                    return b
+                return None
+            if op == '<<' and bi:
+                if is_b(a):
+                    return _bv({x: s + b[1] for x, s in a['b'].items()})
+                return None
+            if op in ('|', '+', '^'):
+                if ai and a[1] == 0:
+                    return b if is_b(b) else None
+                if bi and b[1] == 0:
+                    return a if is_b(a) else None
+                if is_b(a) and is_b(b) and disjoint(a['b'], b['b']):
+                    d = dict(a['b'])
+                    d.update(b['b'])
+                    return _bv(d)
+            return None
+        if k in ('CallExpr',) and depth < 3:
+            cal = n.get('callee') or {}
+            g = prog.funcs.get(cal.get('fid'))
+            if g is None or g.body is None:
+                return None
+            args = kids(n)[1:]
+            if len(args) != len(g.params):
+                return None
+            e2 = {}
+            for q, a in zip(g.params, args):
+                v = ev(a)
+                if v is None or is_bad(v):
+                    return v
+                e2[q['id']] = v
+            return _byte_body(prog, g, bufname, e2, depth + 1)
+        return None
+
+    return ev(e)
+
+
+def _byte_body(prog, g, bufname, env, depth):
+    from rules.common import counting_for, for_init_const
+    ret = []
+
+    def tgt_id(n):
+        n = strip_casts(n)
+        r = n.get('ref', {}) if n else {}
+        return r.get('id') if r.get('k') in ('Local', 'Parm') else None
+
+    def run(s):
+        """False = outside the domain; 'ret' = returned; True = fell through"""
+        k = s['k']
+        if k == 'CompoundStmt':
+            for c in kids(s):
+                r = run(c)
+                if r is not True:
+                    return r
+            return True
+        if k == 'NullStmt':
+            return True
+        if k == 'DeclStmt':
+            for d in kids(s):
+                if d['k'] != 'VarDecl' or not kids(d):
+                    return False
+                v = byte_value(prog, g, kids(d)[0], bufname, env, depth)
+                if v is None:
+                    return False
+                if isinstance(v, tuple) and v[0] == 'bad':
+                    ret.append(v)
+                    return 'ret'
+                env[d['id']] = v
+            return True
+        if k == 'ReturnStmt':
+            v = byte_value(prog, g, kids(s)[0], bufname, env, depth) if kids(s) else None
+            if v is None:
+                return False
+            ret.append(v)
+            return 'ret'
+        if k == 'ForStmt':
+            cf = counting_for(g, s)
+            start = for_init_const(s)
+            if cf is None or start is None:
+                return False
+            vid, bound, op = cf
+            b = byte_value(prog, g, bound, bufname, env, depth)
+            if b is None or isinstance(b, dict) or b[0] != 'int':
+                return False
+            inc = strip_casts(s['ch'][3])
+            if not (inc['k'] in ('UnaryOperator',) and inc.get('op') == '++'):
+                return False
+            end = b[1] + (1 if op == '<=' else 0)
+            if end - start > 64:
+                return False
+            for i in range(start, end):
+                env[vid] = ('int', i)
+                r = run(s['ch'][4])
+                if r == 'ret' and ret and isinstance(ret[-1], tuple) and ret[-1][0] == 'bad':
+                    return 'ret'
+                if r is not True:
+                    return False          # return inside a loop: outside the domain
+            env.pop(vid, None)
+            return True
+        e = strip_casts(s)
+        while e is not None and e['k'] in ('ExprWithCleanups', 'ParenExpr'):
+            e = strip_casts(kids(e)[0])
+        if e is not None and e['k'] in ('BinaryOperator', 'CompoundAssignOperator'):
+            op = e.get('op')
+            t = tgt_id(kids(e)[0])
+            if t is None:
+                return False
+            if op == '=':
+                v = byte_value(prog, g, kids(e)[1], bufname, env, depth)
+            elif op in ('|=', '<<=', '+='):
+                # x op= y  is  x = x op y: evaluate on a synthetic node
+                syn = {'k': 'BinaryOperator', 'op': op[:-1], 'ch': [kids(e)[0], kids(e)[1]]}
+                v = byte_value(prog, g, syn, bufname, env, depth)
+            else:
+                return False
+            if v is None:
+                return False
+            if isinstance(v, tuple) and v[0] == 'bad':
+                ret.append(v)
+                return 'ret'
+            env[t] = v
+            return True
+        return False
+
+    r = run(g.body)
+    if r != 'ret' or len(ret) != 1:
+        return None
+    return ret[0]
